@@ -15,6 +15,15 @@ SchedConfigs ==
 
 SchedOK == { x \in SchedConfigs : x.firstTtl <= x.maxTtl /\ (x.dist = 0 \/ x.pathLen <= x.dist) }
 
+\* C10: the route changes after the first round to a longer or a shorter one (with silent routers before the target)
+GrowConfigs ==
+    { [Base EXCEPT !.firstTtl = f, !.maxTtl = 4, !.maxInflight = i, !.dist = d, !.pathLen = d - 1, !.maxRounds = 3]
+        @@ [changeAt |-> 1, dist2 |-> d2, pathLen2 |-> p2] :
+        f \in 1..2, i \in 1..3, d \in 1..3, d2 \in 0..4, p2 \in 0..3 }
+GrowOK == { x \in GrowConfigs : x.dist2 # x.dist /\ (x.dist2 = 0 \/ x.pathLen2 < x.dist2) }
+GrowQuick == { [x EXCEPT !.maxRounds = 2] : x \in { y \in GrowOK : y.firstTtl = 1 /\ y.maxInflight \in {1, 3} } }
+GrowStrict == { x @@ [strictReset |-> TRUE] : x \in { y \in GrowOK : y.pathLen2 = y.dist2 - 1 } }
+
 \* C03: noise of every kind, including the responses of a tracer to which the command line gave identifier zero
 NoiseConfigs ==
     { [Base EXCEPT !.maxInflight = i, !.dist = d, !.pathLen = p, !.proto = pr, !.maxRounds = r, !.noise = n] :
